@@ -3,9 +3,9 @@ package main
 import (
 	"bytes"
 	"encoding/json"
-	"sort"
 	"os"
 	"path/filepath"
+	"sort"
 )
 
 type naEntry struct {
